@@ -23,7 +23,7 @@ SPEC = {
               model_deps=["theories/Model/Layout.vo", "theories/Model/LayoutMulti.vo", "theories/Model/LayoutRace.vo",
                           "theories/Model/Parse.vo",
                           "theories/Model/LayoutRef.vo"],
-              quick_n=280, thorough_n=6000, timeout=3000, rewrite=rewrite_os_for_c10,
+              quick_n=280, thorough_n=4000, timeout=3000, rewrite=rewrite_os_for_c10,
               rule="cases: real place on (hdrLen, limit, namelen) incl. limits around page ends, unaligned, near 2^32 (55%); "
                    "real hash (10%); real mappedHeader (5%); operation sequences through the real mappedFile API "
                    "(openMapped, newCounter, Add on the returned pointer, extend, close/reopen incl. foreign metadata) or the "
@@ -48,6 +48,8 @@ SPEC = {
                    "(the other writer has worked on the file in between, e.g. allocated in the page the first one has just "
                    "added), plus arbitrary positions. Independent-encoder files also with headers longer than the "
                    "library's minimum (up to one page), non-zero bytes after the metadata's NUL and metadata over 512 bytes. "
+                   "Oracles added for every sequence: the metadata of the file stays the one it was created with; one newCounter "
+                   "grows the file by at most two pages (a file the code blew up is reported by size, not put on the wire). "
                    "distinct = distinct case lines; every case compares implementation observables "
                    "with the model and evaluates the layout oracle, none is trivial"),
     ],
